@@ -3,8 +3,9 @@ CONSTANTS
   Mode = "sim"
   Ns = {2,3,4,5,6,7,8,9,10,11,12,13,14,15,16,17,18,19,20,21,22,23,24,25,26,27,28,29,30}
   Shapes = {1,2,3,4,5,6}
+  Deep = {}
   MaxLen = 8
   MaxPages = 64
-  Alpha = "full"
+  Deep3 = {}
   Emit = TRUE
 INVARIANTS TreesOK PagesOK StepSane EmitCase
